@@ -424,11 +424,30 @@ for _d, _spec in DISTS.items():
     _GJ2EVENT.setdefault(gj_name(_d).lower().replace("_", ""), (_spec.get("event", ()), _spec.get("pevent")))
 
 
-def split_lanes(site):
+def _embeddings(pb, rest):
+    """Order-preserving placements of a parameter's batch dims `pb` among the value's lane dims
+    `rest` (sizes must agree). The prefix placement (parameter mapped at every enclosing level,
+    possibly unmapped at the innermost ones) comes first."""
+    import itertools
+
+    out = []
+    for pos in itertools.combinations(range(len(rest)), len(pb)):
+        if all(rest[p] == d or d == 1 for p, d in zip(pos, pb)):
+            out.append(pos)
+    out.sort(key=lambda pos: (pos != tuple(range(len(pb))), pos))
+    return out
+
+
+def lane_candidates(site, limit=12):
+    """Per-lane records of a (vectorised) site under every consistent alignment of parameter batch
+    dims with value lane dims. Layout of a site: value = sample_shape dims + lane dims (outermost
+    vmap first, `repeat` dims in between where they were applied) + event; a parameter carries a
+    subsequence of the lane dims. Returns a list of lane-record lists (first = preferred)."""
+    import itertools
+
     name = (site["name"] or "").lower().replace("_", "")
     ev, pev = _GJ2EVENT.get(name, ((), None))
     if ev:
-        # event size follows the site's own parameters (loc / concentration), not the table default
         a0 = site["args"][0] if site["args"] else site["kwargs"].get("loc", site["kwargs"].get("concentration"))
         ev = (int(np.shape(a0)[-1]),)
     val = np.asarray(site["value"])
@@ -437,35 +456,38 @@ def split_lanes(site):
     vflat = val.reshape((nl,) + tuple(ev))
     args = list(site["args"]) + [site["kwargs"][k] for k in sorted(site["kwargs"])]
     names = [None] * len(site["args"]) + sorted(site["kwargs"])
-    pflat = []
+    ss = tuple(site.get("sample_shape") or ())
+    rest = lead[len(ss):] if lead[: len(ss)] == ss else lead
+    nss = len(lead) - len(rest)
+    per_param = []
     for j, a in enumerate(args):
         a = np.asarray(a)
         r = pev[j] if (pev is not None and j < len(pev) and names[j] is None) else _kw_rank(name, names[j])
         pe = a.shape[a.ndim - r:] if r else ()
         pb = a.shape[: a.ndim - r] if r else a.shape
-        # Layout of a (vectorised) site: value = sample_shape dims + lane dims (outermost vmap
-        # first) + event. Parameters never carry the sample_shape dims; their lane dims are a
-        # prefix of the value's lane dims (a parameter derived from the enclosing lanes' state is
-        # mapped at every enclosing level; only the innermost level may be unmapped).
-        ss = tuple(site.get("sample_shape") or ())
-        rest = lead[len(ss):] if lead[: len(ss)] == ss else lead
-        nss = len(lead) - len(rest)
-        ab = None
-        if len(pb) <= len(rest):
+        cands = []
+        for pos in _embeddings(pb, rest) if len(pb) <= len(rest) else []:
+            shape = [1] * len(rest)
+            for p, d in zip(pos, pb):
+                shape[p] = d
             try:
-                shaped = a.reshape((1,) * nss + tuple(pb) + (1,) * (len(rest) - len(pb)) + tuple(pe))
-                ab = np.broadcast_to(shaped, tuple(lead) + tuple(pe))
+                ab = np.broadcast_to(a.reshape((1,) * nss + tuple(shape) + tuple(pe)), tuple(lead) + tuple(pe))
+                cands.append(ab.reshape((nl,) + tuple(pe)))
             except ValueError:
-                ab = None
-        if ab is None or ab.shape != tuple(lead) + tuple(pe):
-            pflat.append(None)
-        else:
-            pflat.append(ab.reshape((nl,) + tuple(pe)))
-    recs = []
-    for i in range(nl):
-        ps = tuple(None if q is None else q[i] for q in pflat)
-        recs.append(dict(name=name, params=ps, pnames=names, value=vflat[i], site=site.get("idx")))
-    return recs
+                pass
+        per_param.append(cands or [None])
+    out = []
+    for combo in itertools.islice(itertools.product(*per_param), limit):
+        recs = []
+        for i in range(nl):
+            ps = tuple(None if q is None else q[i] for q in combo)
+            recs.append(dict(name=name, params=ps, pnames=names, value=vflat[i], site=site.get("idx")))
+        out.append(recs)
+    return out
+
+
+def split_lanes(site):
+    return lane_candidates(site, limit=1)[0]
 
 
 def _kw_rank(name, kw):
